@@ -279,6 +279,33 @@ func init() {
 		}
 		l.p("/-- the empty cursor (no partition matches) is built with the request's Query and Pos and `Release` returns them (a8a4a54) -/")
 		l.p("def emptyCursorKeepsState : Bool := %s", leanBool(keepsState))
+		// --- ApplyState drops what the wrapping iterators buffered (proposed repair of F22) ------------------
+		drops22 := false
+		if fd := funcDecl(cf, "crsr", "ApplyState"); fd == nil {
+			problem("crsr.ApplyState not found")
+		} else {
+			ast.Inspect(fd.Body, func(n ast.Node) bool {
+				is, ok := n.(*ast.IfStmt)
+				if !ok || c03Str(is.Cond) != "cur.state.Pos != state.Pos" {
+					return true
+				}
+				var calls []string
+				for _, st := range is.Body.List {
+					if es, ok := st.(*ast.ExprStmt); ok {
+						calls = append(calls, c03Str(es.X))
+					}
+				}
+				for i := 0; i+1 < len(calls); i++ {
+					a, b := strings.Replace(calls[i], "cur.it.", "cur.", 1), strings.Replace(calls[i+1], "cur.it.", "cur.", 1)
+					if a == "cur.SetBackward(true)" && b == "cur.SetBackward(false)" {
+						drops22 = true
+					}
+				}
+				return false
+			})
+		}
+		l.p("/-- `crsr.ApplyState`: after a position that differs from the cursor's own was applied, the wrapping iterators are made to forget their buffered event / selection (direction switch there and back) -/")
+		l.p("def applyStateDropsBuffers : Bool := %s", leanBool(drops22))
 		l.write()
 	}
 	generators["C03"] = gen
